@@ -20,6 +20,7 @@
 #include "myth_thread.h"
 #include "myth_misc.h"
 #include "myth_tls.h"
+#include "myth_verif.h"
 
 #if MYTH_ECO_MODE
 #include "myth_eco.h"
@@ -274,6 +275,7 @@ static inline void free_myth_thread_struct_desc(myth_running_env_t e,myth_thread
   myth_spin_unlock_body(&th->sanity_check);
 #endif
   //Add to a freelist
+  MYTH_VERIF_DESC_REL(th);
   myth_freelist_push(&e->freelist_desc,(void*)th);
 #else
   myth_assert(th);
@@ -301,6 +303,7 @@ static inline void free_myth_thread_struct_stack(myth_running_env_t e,myth_threa
   if (th->stack) {
     //Add to a freelist
     ptr = (void**)th->stack;
+    MYTH_VERIF_STACK_REL(ptr);
 
     uintptr_t *blk_size = (uintptr_t*)(((uint8_t*)ptr) + sizeof(void*));
     if (*blk_size == 0) {
@@ -330,6 +333,8 @@ MYTH_CTX_CALLBACK void myth_create_1(void *arg1,void *arg2,void *arg3) {
   myth_thread_t this_thread = env->this_thread;
   myth_func_t fn = (myth_func_t)arg2;
   t0 = 0; t1 = 0;
+  MYTH_VERIF_ALIGN();
+  MYTH_VERIF_POINT(CREATE1_ENTER);
 #if MYTH_CREATE_PROF_DETAIL
   t1 = myth_get_rdtsc();
   env->prof_data.create_switch += t1 - env->prof_data.create_d_tmp;
@@ -338,6 +343,7 @@ MYTH_CTX_CALLBACK void myth_create_1(void *arg1,void *arg2,void *arg3) {
 
   //Push current thread to runqueue
   myth_queue_push(&env->runnable_q, this_thread);
+  MYTH_VERIF_POINT(CREATE_AFTER_PARENT_PUSH);
 
 #if MYTH_CREATE_PROF_DETAIL
   t1 = myth_get_rdtsc();
@@ -395,6 +401,7 @@ static inline int myth_create_ex_body(myth_thread_t * id,
   //myth_log_add(env,MYTH_LOG_INT);
   // Allocate new thread descriptor
   myth_thread_t new_thread = get_new_myth_thread_struct_desc(env);
+  MYTH_VERIF_DESC_ACQ(new_thread, 0);
   (void)_;
   new_thread->next = 0;
 #if MYTH_DEBUG_JOIN_FCC
@@ -411,6 +418,7 @@ static inline int myth_create_ex_body(myth_thread_t * id,
 #if MYTH_SPLIT_STACK_DESC /* default */
   // allocate stack and get pointer
   void * stk = get_new_myth_thread_struct_stack(env, stack_size);
+  MYTH_VERIF_STACK_ACQ(stk, stack_size, g_attr.stacksize);
   new_thread->stack = stk;
   new_thread->stack_size = stack_size;
 #else
@@ -474,6 +482,7 @@ static inline int myth_create_ex_body(myth_thread_t * id,
 
     //Push a new thread to runqueue
     myth_queue_push(&env->runnable_q, new_thread);
+    MYTH_VERIF_POINT(CREATE_PF_AFTER_PUSH);
 #if MYTH_CREATE_PROF
     t1 = myth_get_rdtsc();
     env->prof_data.create_cycles += t1 - t0;
@@ -513,9 +522,12 @@ MYTH_CTX_CALLBACK void myth_join_2(void *arg1,void *arg2,void *arg3)
 {
   myth_running_env_t env=arg1;
   myth_thread_t th=arg2,next_thread=arg3;
+  MYTH_VERIF_ALIGN();
+  MYTH_VERIF_POINT(JOIN_CB_BEFORE_SET);
   //Set join target
   myth_desc_join_set(th,env->this_thread);
   myth_spin_unlock_body(&th->lock);
+  MYTH_VERIF_POINT(JOIN_CB_AFTER_UNLOCK);
   //Change current running thread
   env->this_thread=next_thread;
   //myth_log_add(env,MYTH_LOG_USER);
@@ -525,10 +537,13 @@ MYTH_CTX_CALLBACK void myth_join_3(void *arg1,void *arg2,void *arg3)
 {
   myth_thread_t this_thread=arg1,th=arg2;
   (void)arg3;
+  MYTH_VERIF_ALIGN();
+  MYTH_VERIF_POINT(JOIN_CB_BEFORE_SET);
   //Set join target
   myth_desc_join_set(th,this_thread);
   //Change current running thread
   myth_spin_unlock_body(&th->lock);
+  MYTH_VERIF_POINT(JOIN_CB_AFTER_UNLOCK);
 }
 
 //Wait until the finish of a thread
@@ -585,6 +600,7 @@ static inline int myth_join_body(myth_thread_t th,void **result) {
 #endif
   //Obtain lock and check again
   myth_spin_lock_body(&th->lock);
+  MYTH_VERIF_POINT(JOIN_LOCKED);
   //If target is finished, return
   if (myth_desc_is_finished(th)){
 #if MYTH_DEBUG_JOIN_FCC
@@ -596,6 +612,8 @@ static inline int myth_join_body(myth_thread_t th,void **result) {
     myth_dprintf("myth_join:join thread (%p) is already finished. Return immediately\n",th);
 #endif
     myth_spin_unlock_body(&th->lock);
+    MYTH_VERIF_COV(JOIN_FOUND_FINISHED);
+    MYTH_VERIF_WAIT_UNTIL(JOIN_WAIT_FR2, th->status == MYTH_STATUS_FREE_READY2);
     while (th->status != MYTH_STATUS_FREE_READY2);
 #if MYTH_JOIN_PROF_DETAIL
     if (result) *result = th->result;
@@ -624,6 +642,7 @@ static inline int myth_join_body(myth_thread_t th,void **result) {
 #endif
   //Get next runnable thread
   myth_thread_t next;
+  MYTH_VERIF_POINT(JOIN_BEFORE_POP);
   next = myth_queue_pop(&env->runnable_q);
 #if MYTH_JOIN_PROF
   t1 = myth_get_rdtsc();
@@ -634,6 +653,7 @@ static inline int myth_join_body(myth_thread_t th,void **result) {
     th->child_status_when_join_was_called = "child not finished and go to next";
 #endif
     next->env=env;
+    MYTH_VERIF_COV(JOIN_BLOCK_NEXT);
     //Switch to next runnable thread
     myth_swap_context_withcall(&this_thread->context,&next->context,myth_join_2,
 			       (void*)env,(void*)th,(void*)next);
@@ -645,6 +665,7 @@ static inline int myth_join_body(myth_thread_t th,void **result) {
 #endif
     //myth_log_add(this_thread->env,MYTH_LOG_WS);
     //Since there is no runnable thread, switch to scheduler and do work-steaing
+    MYTH_VERIF_COV(JOIN_BLOCK_SCHED);
     myth_swap_context_withcall(&this_thread->context,&env->sched.context,myth_join_3,
 			       (void*)this_thread,(void*)th,NULL);
   }
@@ -663,6 +684,7 @@ static inline int myth_join_body(myth_thread_t th,void **result) {
   //Get return value
   myth_spin_unlock_body(&th->lock);
 #endif
+  MYTH_VERIF_WAIT_UNTIL(JOIN_WAIT_FR2, th->status == MYTH_STATUS_FREE_READY2);
   while (th->status != MYTH_STATUS_FREE_READY2) { }
   // use myth_get_current_env_noinline here to prevent compiler from sharing
   // the same g_worker_rank before and after context switching
@@ -687,9 +709,11 @@ static inline int myth_tryjoin_body(myth_thread_t th,void **result) {
   env = myth_get_current_env();
   //Obtain lock and check again
   myth_spin_lock_body(&th->lock);
+  MYTH_VERIF_POINT(TRYJOIN_LOCKED);
   //If target is finished, return
   if (myth_desc_is_finished(th)){
     myth_spin_unlock_body(&th->lock);
+    MYTH_VERIF_WAIT_UNTIL(JOIN_WAIT_FR2, th->status == MYTH_STATUS_FREE_READY2);
     while (th->status != MYTH_STATUS_FREE_READY2) { }
     myth_join_1(env,th,result);
     //myth_log_add(env,MYTH_LOG_USER);
@@ -855,19 +879,25 @@ static inline int myth_create_join_many_ex_body(myth_thread_t * ids,
 
 static inline int myth_detach_body(myth_thread_t th)
 {
+  MYTH_VERIF_POINT(DETACH_ENTER);
   if (th->status==MYTH_STATUS_FREE_READY2){
     //If a thread is finished, just release resource
+    MYTH_VERIF_COV(DETACH_FINISHED_FAST);
     free_myth_thread_struct_desc(myth_get_current_env(),th);
     return 0;
   }
   //Obtain lock
   myth_spin_lock_body(&th->lock);
+  MYTH_VERIF_POINT(DETACH_LOCKED);
   if (myth_desc_is_finished(th)){//If a thread is finished, release resource
     myth_spin_unlock_body(&th->lock);
+    MYTH_VERIF_COV(DETACH_FINISHED_LOCKED);
+    MYTH_VERIF_WAIT_UNTIL(JOIN_WAIT_FR2, th->status == MYTH_STATUS_FREE_READY2);
     while (th->status!=MYTH_STATUS_FREE_READY2);
     free_myth_thread_struct_desc(myth_get_current_env(),th);
   }
   else{//Set a thread as detached
+    MYTH_VERIF_COV(DETACH_RUNNING);
     myth_desc_set_detached(th);
     myth_spin_unlock_body(&th->lock);
   }
@@ -958,8 +988,11 @@ MYTH_CTX_CALLBACK void myth_yield_ex_1(void * arg1, void * arg2, void * arg3) {
   myth_running_env_t env = arg1;
   myth_thread_t this_thread = arg2;
   myth_thread_t next_thread = arg3;
+  MYTH_VERIF_ALIGN();
+  MYTH_VERIF_POINT(YIELD_CB_BEFORE_PUT);
   //Push current thread to the tail of runqueue
   myth_queue_put(&env->runnable_q, this_thread);
+  MYTH_VERIF_POINT(YIELD_CB_AFTER_PUT);
   env->this_thread = next_thread;
   next_thread->env = env;
 }
@@ -1019,6 +1052,7 @@ static inline int myth_yield_ex_body(int opt) {
   }
   if (next) {
     next->env=env;
+    MYTH_VERIF_POINT(YIELD_BEFORE_SWITCH);
     //Switch context and push current thread to runqueue
     myth_swap_context_withcall(&th->context, &next->context,
 			       myth_yield_ex_1,
@@ -1071,6 +1105,7 @@ static void __attribute__((unused)) myth_entry_point(void)
 {
   myth_thread_t this_thread;
   myth_running_env_t env;
+  MYTH_VERIF_ALIGN();
 #if MYTH_ENTRY_POINT_PROF
   uint64_t t0,t1;
   t0=myth_get_rdtsc();
@@ -1101,12 +1136,15 @@ MYTH_CTX_CALLBACK void myth_entry_point_1(void *arg1,void *arg2,void *arg3)
   env->prof_data.ep_switch += t1-env->prof_data.ep_d_tmp;
   t0 = myth_get_rdtsc();
 #endif
+  MYTH_VERIF_ALIGN();
+  MYTH_VERIF_POINT(EP_CB_BEFORE_STACKREL);
   free_myth_thread_struct_stack(env,this_thread);
   if (this_thread->detached){
     //The thread is detached. Release resource
 #if MYTH_ENTRY_POINT_DEBUG
     myth_dprintf("Thread %p is detached.Freed resource\n",this_thread);
 #endif
+    MYTH_VERIF_COV(FIN_DETACHED);
     myth_spin_unlock_body(&this_thread->lock);
     free_myth_thread_struct_desc(env,this_thread);
   }
@@ -1116,8 +1154,12 @@ MYTH_CTX_CALLBACK void myth_entry_point_1(void *arg1,void *arg2,void *arg3)
     myth_spin_unlock_body(&this_thread->lock);
     this_thread->status = MYTH_STATUS_FREE_READY2;
 #else
+    MYTH_VERIF_POINT(EP_CB_BEFORE_STATUS);
+    MYTH_VERIF_EV(FIN_PRE, this_thread, 0);
     this_thread->status=MYTH_STATUS_FREE_READY2;
     myth_spin_unlock_body(&this_thread->lock);
+    MYTH_VERIF_EV(FINISHED, this_thread, 0);
+    MYTH_VERIF_POINT(EP_CB_AFTER_STATUS);
 #endif
   }
   env->this_thread = next_thread;
@@ -1150,12 +1192,15 @@ MYTH_CTX_CALLBACK void myth_entry_point_2(void *arg1,void *arg2,void *arg3)
   env->prof_data.ep_switch+=t1-env->prof_data.ep_d_tmp;
   t0=myth_get_rdtsc();
 #endif
+  MYTH_VERIF_ALIGN();
+  MYTH_VERIF_POINT(EP_CB_BEFORE_STACKREL);
   free_myth_thread_struct_stack(env,this_thread);
   if (this_thread->detached){
     //The thread is detached. Release resource
 #if MYTH_ENTRY_POINT_DEBUG
     myth_dprintf("Thread %p is detached.Freed resource\n",this_thread);
 #endif
+    MYTH_VERIF_COV(FIN_DETACHED);
     myth_spin_unlock_body(&this_thread->lock);
     free_myth_thread_struct_desc(env,this_thread);
   }
@@ -1165,8 +1210,12 @@ MYTH_CTX_CALLBACK void myth_entry_point_2(void *arg1,void *arg2,void *arg3)
     myth_spin_unlock_body(&this_thread->lock);
     this_thread->status=MYTH_STATUS_FREE_READY2;
 #else
+    MYTH_VERIF_POINT(EP_CB_BEFORE_STATUS);
+    MYTH_VERIF_EV(FIN_PRE, this_thread, 0);
     this_thread->status=MYTH_STATUS_FREE_READY2;
     myth_spin_unlock_body(&this_thread->lock);
+    MYTH_VERIF_EV(FINISHED, this_thread, 0);
+    MYTH_VERIF_POINT(EP_CB_AFTER_STATUS);
 #endif
   }
 #if MYTH_EP_PROF_DETAIL
@@ -1207,7 +1256,9 @@ static inline void myth_entry_point_cleanup(myth_thread_t this_thread) {
   env->prof_data.ep_cycles_tmp = t2;
 #endif
   this_thread_v = this_thread;
+  MYTH_VERIF_POINT(FIN_BEFORE_LOCK);
   myth_spin_lock_body(&this_thread->lock);
+  MYTH_VERIF_POINT(FIN_LOCKED);
   myth_thread_t wait_thread = this_thread_v->join_thread;
   //Execute a thread waiting for current thread
   if (wait_thread){
@@ -1220,6 +1271,7 @@ static inline void myth_entry_point_cleanup(myth_thread_t this_thread) {
     myth_assert(wait_thread->status == MYTH_STATUS_BLOCKED);
     wait_thread->env = env;
     wait_thread->status = MYTH_STATUS_READY;
+    MYTH_VERIF_COV(FIN_SAW_WAITER);
 #if MYTH_ENTRY_POINT_DEBUG
     myth_dprintf("Join process completed %p\n",this_thread);
 #endif
@@ -1245,6 +1297,7 @@ static inline void myth_entry_point_cleanup(myth_thread_t this_thread) {
 #endif
   
   //Get next runnable thread
+  MYTH_VERIF_POINT(FIN_BEFORE_POP);
   myth_thread_t next = myth_queue_pop(&env->runnable_q);
 
 #if MYTH_EP_PROF_DETAIL
@@ -1261,6 +1314,7 @@ static inline void myth_entry_point_cleanup(myth_thread_t this_thread) {
     this_thread->waiter = 0;
 #endif
     //Switch to the next thread
+    MYTH_VERIF_COV(FIN_NEXT);
     myth_set_context_withcall(&next->context, myth_entry_point_1,
 			      (void*)env, this_thread, next);
   } else {
@@ -1273,6 +1327,7 @@ static inline void myth_entry_point_cleanup(myth_thread_t this_thread) {
     this_thread->waiter = 0;
 #endif
     //Switch to the scheduler
+    MYTH_VERIF_COV(FIN_SCHED);
     myth_set_context_withcall(&env->sched.context, myth_entry_point_2,
 			      (void*)env, this_thread, NULL);
   }
